@@ -351,11 +351,12 @@ def term_axioms(ex):
         z3.ForAll([cs, ts, a, b], z3.Implies(den_terms(cs, ts, a, b), CI.len(cs) == b - a), patterns=[den_terms(cs, ts, a, b)]),
         z3.ForAll([cs, ts, a, b, i], z3.Implies(z3.And(den_terms(cs, ts, a, b), 0 <= i, i < b - a), V.denotes_x(CI.at(cs, i), expr(RI.at(ts, a + i)))),
                   patterns=[z3.MultiPattern(den_terms(cs, ts, a, b), CI.at(cs, i))]),
-        z3.ForAll([cs, ts, a, b], z3.Implies(z3.Not(den_terms(cs, ts, a, b)),
+        # (only for windows inside the sequence: that is where lean/RelAlg/Spec.lean's definition by Forall₂ over the slice agrees)
+        z3.ForAll([cs, ts, a, b], z3.Implies(z3.And(z3.Not(den_terms(cs, ts, a, b)), 0 <= a, a <= b, b <= RI.len(ts)),
                                              z3.Or(CI.len(cs) != b - a, z3.And(0 <= w, w < b - a, z3.Not(V.denotes_x(CI.at(cs, w), expr(RI.at(ts, a + w))))))),
                   patterns=[den_terms(cs, ts, a, b)]),
         z3.ForAll([ts, a, b, d, i], z3.Implies(z3.And(same_dir(ts, a, b, d), a <= i, i < b), asc(RI.at(ts, i)) == d), patterns=[z3.MultiPattern(same_dir(ts, a, b, d), RI.at(ts, i))]),
-        z3.ForAll([ts, a, b, d], z3.Implies(z3.Not(same_dir(ts, a, b, d)), z3.And(a <= w2, w2 < b, asc(RI.at(ts, w2)) != d)), patterns=[same_dir(ts, a, b, d)]),
+        z3.ForAll([ts, a, b, d], z3.Implies(z3.And(z3.Not(same_dir(ts, a, b, d)), 0 <= a, b <= RI.len(ts)), z3.And(a <= w2, w2 < b, asc(RI.at(ts, w2)) != d)), patterns=[same_dir(ts, a, b, d)]),
     ]
 
 
